@@ -25,15 +25,17 @@ PROVED = ['[P] resultant_zero_l/_r, resultant_rational_zero_l/_r: a zero argumen
           '[P] resultant_int_spec: for all canonical non-zero inputs resultant f g = det(Sylvester_mx (Poly g) (Poly f)) (no flag hypothesis; from resultant_int_partial + resultant_flag_true)',
           '[P] resultant_rational_agrees: on canonical non-zero integer inputs resultant_rational returns the same value as resultant, unconditionally',
           '[P] resultant_scale_model: scaling law on the outputs of the integer routine: for canonical non-zero f, g and s, t <> 0, resultant (s f) (t g) = s^deg g * t^deg f * resultant f g',
+          '[P] resultant_rational_scale_model (fifth wave): scaling law on the outputs of the rational routine, as a statement about two runs: for canonical non-zero f, g over Q (denominators allowed) and non-zero rationals s, t, in either mode, '
+          'both runs return and resultant_rational (s f) (t g) = s^deg g * t^deg f * resultant_rational f g',
           '[C] resultant_flag_no_panic_partial, resultant_int_partial, resultant_rational_agrees_partial: the first-wave conditional forms (kept; now subsumed)']
-NOT_PROVED = ['scaling law for the rational routine resultant_rational on inputs with denominators as a statement about two runs (it follows from resultant_rational_spec + resultant_scale, both proved; not stated separately): metamorphic oracle']
+NOT_PROVED = []
 PROFILES = ('debug', 'release')
 
 TIMEOUT = 3600          # per service process; the extracted model computes with Coq's binary integers (slow on 64-bit coefficients)
 
 CLAIM = dict(
     technique='Coq proofs: (1) MathComp-level Sylvester-matrix recurrences (new) and the Euclid recursion = determinant; (2) refinement of the Gallina model of resultant_rational to it (resultant_rational_spec, all inputs); (3) integer sub-resultant routine: special cases, termination, Cohen bookkeeping invariant (value = determinant under the flag), and the sub-resultant structure theorem (polynomial subresultants as determinants over {poly Z}, invariant b^(deg F-j-1) a^(deg G-j) S_j(A0,B0) = +- S_j(F,G)) proving that the exactness flag computed by the model is always true; + extracted-model-vs-implementation correspondence + Bareiss Sylvester-determinant oracle on every case',
-    text='For all canonical non-zero inputs (lengths fit a usize), in both build modes: resultant f g = det(Sylvester) (resultant_int_spec), resultant_rational f g = det(Sylvester) (resultant_rational_spec), the two routines agree on integer inputs, every BigInt division of the integer routine is exact (resultant_flag_true) and neither routine panics (resultant_total, resultant_rational_total); zero inputs give 0. '
+    text='For all canonical non-zero inputs (lengths fit a usize), in both build modes: resultant f g = det(Sylvester) (resultant_int_spec), resultant_rational f g = det(Sylvester) (resultant_rational_spec), the two routines agree on integer inputs, every BigInt division of the integer routine is exact (resultant_flag_true) and neither routine panics (resultant_total, resultant_rational_total); zero inputs give 0; the scaling law Res(s f, t g) = s^deg g t^deg f Res(f, g) holds on the outputs of both routines (resultant_scale_model over Z, resultant_rational_scale_model over Q). '
          'The model is tied to the code by the correspondence check; the determinant is additionally re-checked on every generated case by an independent fraction-free computation.',
     note='MathComp lays the Sylvester matrix out low-degree first: the classical Res(f,g) is resultant g f (resultant_linear_convention). Signs of the subresultants are not tracked in the structure theorem (only exactness needs them up to sign); the sign of the result comes from the first-wave invariant.',
     ref='DESIGN.md section 4, C04')
